@@ -181,9 +181,26 @@ Fixpoint binders_nonempty (f : formula) : bool :=
   | FQ _ vs g => negb (Nat.eqb (List.length vs) 0) && binders_nonempty g
   end.
 
+(* parser image: every comparison has at least one guard (`t` alone is not a formula) *)
+Fixpoint cmps_nonempty (f : formula) : bool :=
+  match f with
+  | FAtomic (ACmp _ gs) => negb (Nat.eqb (List.length gs) 0)
+  | FAtomic _ => true
+  | FNot g => cmps_nonempty g
+  | FBin _ l r => cmps_nonempty l && cmps_nonempty r
+  | FQ _ _ g => cmps_nonempty g
+  end.
+
+(* the constant signature of a problem (Sem/TffSem.v [csig]): the constants it declares with
+   `type_symbol_i` are symbolic constants and denote themselves, those it declares with
+   `type_function_constant_i` are placeholders *)
+Definition problem_csig (p : problem) : csig :=
+  (map (fun s => (s, CSelf)) (problem_symbols p)
+   ++ map (fun c => ((fcname c ++ suffix (fcsort c))%string, CPlace (fcname c) (fcsort c))) (problem_function_constants p))%list.
+
 (* the assembly every task performs before a problem is printed *)
 Definition pipeline (raw : problem) (d : decomposition) : list problem :=
   decompose (create_unique_formula_names (rename_conflicting_symbols
     (add_annotated_formulas (with_name (pb_name raw)) (pb_formulas raw)))) d.
 
-(* EXTRACT: closed_formula pipeline problem_display emit ident_ok symbol_order sort_strings windows2 *)
+(* EXTRACT: closed_formula pipeline problem_display emit ident_ok symbol_order sort_strings windows2 problem_csig cmps_nonempty *)
